@@ -186,8 +186,9 @@ def correspondence(ctx):
                 i_cert = drv.ask("cert", mm, n, Atxt, btxt, q(tol), vecs_text(fs), vecs_text(impl[1]))
                 pend.append(("cert", (spec, sched, labels, tol), ",".join(["true"] * len(fs)), i_cert))
                 if n <= lim_exact:
-                    i_ex = drv.ask("lsqexact", mm, n, Atxt, btxt, vecs_text(fs[:5]))
-                    pend.append(("lsqexact", (spec, sched, labels), ("ok", impl[1][:5]), i_ex))
+                    pick = [0, 4] if ctx.quick else [0, 1, 2, 3, 4]
+                    i_ex = drv.ask("lsqexact", mm, n, Atxt, btxt, vecs_text([fs[k] for k in pick]))
+                    pend.append(("lsqexact", (spec, sched, labels), ("ok", [impl[1][k] for k in pick]), i_ex))
             for lab in labels:
                 ctx.case(("corr", spec, sched, lab), nontrivial=not lab.startswith("exact"),
                          sample={"op": "estseq/cert", "spec": list(spec), "shape": [mm, n], "data": lab,
@@ -244,10 +245,11 @@ def correspondence(ctx):
         ctx.count("corr guard on incomplete testers")
         ctx.case(("corr-guard", kind, flag, tuple(names_s or ()), tuple(names_p or ())),
                  sample={"op": "estseq", "guard": impl, "shape": [mm, n], "rank": rank})
-        if impl == ("err", "singular"):
-            # wide A of full row rank: the coded guard (`min(shape) == rank`) lets it through and numpy's inv raises;
-            # there is no `G` to hand to the model — only the guard verdict is compared
-            ctx.count("corr guard passes a wide matrix; np.linalg.inv raises")
+        if rank == min(mm, n):
+            # wide A of full row rank: the coded guard (`min(shape) == rank`) lets it through; numpy's inv of the
+            # singular AᵀA raises or returns garbage — there is no `G` satisfying the contract to hand to the
+            # model, so only the guard verdict is compared (the oracle judges the answer, finding D13)
+            ctx.count("corr guard passes a wide matrix (impl: %s)" % (impl[1] if impl[0] == "err" else "answers"))
             continue
         Gd = np.zeros((n, n))
         i = drv.ask("estseq", mm, n, rank, mat_text(Gd), mat_text(A), qlist(b), seq_text([ds]))
@@ -396,31 +398,46 @@ INCOMPLETE = [("qst", None, ["x", "z"]), ("qst", None, ["x", "y"]), ("povmt", ["
               ("qpt", ["x0", "y0", "z0", "z1"], ["x", "z"]), ("qmpt", ["x0", "y0", "z0", "z1"], ["y", "z"])]
 
 
+KNOWN_WIDE = "C09/guard/wide-matrix/not-least-squares"
+
+
 def check_guard(ctx):
-    """informationally incomplete tester sets must be rejected, not answered"""
+    """informationally incomplete tester sets: a tall rank-deficient forward model must be rejected; whenever the
+    estimator does answer, the answer must be a least-squares solution (residual orthogonal to the model)"""
     c_sys = ts.make_csys("qubit")
     for kind, ns, npv in INCOMPLETE:
         for flag in (True, False):
             sts = ts.generate_tester_states(c_sys, ns) if ns else []
             pvs = ts.generate_tester_povms(c_sys, npv) if npv else []
             qt = ts.build(kind, sts, pvs, flag, 2)
-            A = qt.calc_matA()
+            A, b = qt.calc_matA(), qt.calc_vecB()
             f = np.full(A.shape[0], 0.5)
+            f[::2] = 0.25
+            f[1::2] = 0.75
             ds, k = [], 0
             for i in range(qt.num_schedules):
                 c = qt.num_outcomes(i)
                 ds.append((1, f[k:k + c])); k += c
             ctx.case(("oracle-guard", kind, flag, tuple(ns or ()), tuple(npv or ())),
                      sample={"check": "guard", "kind": kind, "shape": list(A.shape)})
-            ctx.count("oracle guard (incomplete testers)")
+            wide = A.shape[0] < A.shape[1]
+            ctx.count("oracle guard (incomplete testers, %s)" % ("wide" if wide else "tall"))
             try:
                 v = LinearEstimator().calc_estimate(qt, ds).estimated_var
             except Exception:  # noqa  rejected: fine
                 continue
-            ctx.violate(f"C09/guard/{kind}/incomplete-accepted",
-                        f"{kind} flag={flag} with testers {ns}/{npv} (rank {np.linalg.matrix_rank(A)} < {A.shape[1]} variables) "
-                        f"is answered with {np.round(v, 3)[:4]}… instead of being rejected",
-                        {"kind": "guard", "which": [kind, ns, npv, flag]})
+            rep = {"kind": "guard", "seed": ctx.seed, "which": [kind, ns, npv, flag]}
+            g_ = A.T @ (A @ v + b - f)
+            if not wide:
+                ctx.violate(f"C09/guard/{kind}/incomplete-accepted",
+                            f"{kind} flag={flag} with testers {ns}/{npv} (rank {np.linalg.matrix_rank(A)} < {A.shape[1]} "
+                            f"variables) is answered with {np.round(v, 3)[:4]}… instead of being rejected", rep)
+            elif not np.abs(g_).max() <= 1e-8:
+                ctx.violate(KNOWN_WIDE,
+                            f"{kind} flag={flag} with testers {ns}/{npv}: matA is {A.shape[0]}x{A.shape[1]} of rank "
+                            f"{np.linalg.matrix_rank(A)}; the guard `min(shape) == rank` lets it through, inv(AᵀA) of the "
+                            f"singular matrix returns garbage and the answer is not a least-squares solution "
+                            f"(|Aᵀ(Av+b−f)|max = {np.abs(g_).max():.2e})", rep)
 
 
 def check_mixed(ctx):
@@ -455,7 +472,15 @@ def check_mixed(ctx):
                             f"{kind} flag={flag} mixed outcome counts: estimate off by {np.abs(v - t.var(flag)).max():.3e}", rep)
 
 
+PARTIAL = [
+    {"theorem": "QM.C09.est_exact / est_normal / est_lsq",
+     "missing": "the contract G·(AᵀA)=1 is exact; numpy's inverse satisfies it only up to rounding (generators keep "
+                "cond(A) ≤ 1e3; every implementation output is certified by lsqCert with an explicit tolerance)"},
+]
+
+
 def oracle(ctx, volume=1):
+    ctx.partial = PARTIAL
     for spec in specs(ctx.tier, volume):
         check_setup(ctx, spec)
         if spec[0] == "qubit" and spec[1] == "typical" and spec[2] == "typical":
